@@ -1,42 +1,572 @@
+// Replays behaviours of specs/applifecycle/AppLifecycle.tla on the REAL chain/app/evm EVMApp (C05).
+//
+// usage: evmapp <traces.json>
+//
+// Every trace drives one application instance ("primary replica") on real LevelDBs in a temporary
+// directory.  Steps (arguments as in the specification):
+//
+//	Execute(b, v, i)   block b (sequence of abstract transactions); v/i = what OnExecute must report
+//	Commit(nrc, nkv)   TxPool.Update + OnCommit; nrc/nkv = receipts / kv records folded into ReceiptsHash
+//	Restart            Stop ; NewEVMApp ; Start on the same directories
+//	Query(kind, ans)   "state": nonce/key/receipt/history/existence queries, "call": contract call
+//
+// After every step the projected state is compared with the specification state.
+//
+// The property itself is relational and is checked directly on the real replies, independent of
+// the model: every replica that has committed the same chain prefix - the primaries of all traces
+// (different restart placements, different numbers of signature-checking goroutines, forced
+// verifier schedules) and, per final chain, a reference replica that runs continuously with ONE
+// verifier goroutine and a catch-up replica created afterwards with 16 goroutines and a restart in
+// the middle - must have returned byte-identical CommitResult{AppHash, ReceiptsHash}, the same
+// ExecuteResult partition, and byte-identical answers to every query.
 package main
 
 import (
+	"bytes"
+	"crypto/sha256"
+	"encoding/binary"
+	"encoding/hex"
 	"fmt"
+	"hash/fnv"
 	"os"
+	"runtime/debug"
+	"sort"
+	"strings"
+	"time"
 
+	"github.com/dappledger/AnnChain/chain/app/evm"
+	rtypes "github.com/dappledger/AnnChain/chain/types"
 	"github.com/dappledger/AnnChain/eth/common"
+	ecrypto "github.com/dappledger/AnnChain/eth/crypto"
 	crypto "github.com/dappledger/AnnChain/gemmill/go-crypto"
+	gtypes "github.com/dappledger/AnnChain/gemmill/types"
+	"github.com/dappledger/AnnChain/gemmill/verifhook"
 
 	"verifharness/evmutil"
+	"verifharness/mbt"
 )
 
-func main() {
-	crypto.NodeInit(crypto.CryptoTypeZhongAn)
-	n, err := evmutil.NewNode(10)
-	if err != nil {
-		panic(err)
+type entry struct {
+	vals map[string]string
+	who  string
+}
+
+// tables of what replicas observed, keyed by the committed chain prefix
+var (
+	commits = map[string]*entry{} // chainKey -> AppHash, ReceiptsHash
+	execs   = map[string]*entry{} // chainKey|blockKey -> partition
+	queries = map[string]*entry{} // chainKey -> query name -> answer
+	calls   = map[string]*entry{} // chainKey -> contract call answer
+	refDone = map[string]bool{}
+)
+
+type replica struct {
+	rep      *mbt.Report
+	ti       int
+	tid      string
+	node     *evmutil.Node
+	who      string
+	chain    [][][]byte      // committed blocks (raw txs)
+	achain   [][]evmutil.ATx // same, abstract
+	key      string          // chain key
+	pending  *gtypes.Block
+	ptxs     [][]byte
+	patxs    []evmutil.ATx
+	gate     bool
+	routines int
+	aborted  bool
+	accts    []int
+	keys     []string
+}
+
+func (r *replica) fail(si int, action, kind string, prop bool, key, detail string, want, got interface{}) {
+	r.rep.Fail(mbt.Failure{Trace: r.ti, TraceID: r.tid, Step: si, Action: action, Kind: kind, Property: prop, Key: key, Detail: detail, Want: want, Got: got})
+}
+
+func variantOf(t evmutil.ATx) int {
+	h := fnv.New32a()
+	h.Write([]byte(t.String()))
+	return int(h.Sum32() % 9973)
+}
+
+func chainKey(prev string, txs [][]byte) string {
+	h := sha256.New()
+	h.Write([]byte(prev))
+	for _, t := range txs {
+		var l [4]byte
+		binary.BigEndian.PutUint32(l[:], uint32(len(t)))
+		h.Write(l[:])
+		h.Write(t)
 	}
-	defer n.Close()
-	k := evmutil.Key(0)
-	to := common.HexToAddress("0x1234")
-	for h := int64(1); h <= 3; h++ {
-		tx := evmutil.SignedTx(k, uint64(h-1), &to, 0, 100000, 0, nil)
-		kv := evmutil.SignedTx(evmutil.Key(1), uint64(h-1), &to, 0, 100000, 0, evmutil.KVPayload([]byte(fmt.Sprintf("k%d", h)), []byte("v")))
-		txs := [][]byte{tx}
-		if h == 1 {
-			txs = append(txs, kv)
+	h.Write([]byte{0xff})
+	return hex.EncodeToString(h.Sum(nil)[:12])
+}
+
+func names(ts []evmutil.ATx) []interface{} {
+	o := make([]interface{}, len(ts))
+	for i, t := range ts {
+		o[i] = t.String()
+	}
+	return o
+}
+
+// record compares vals with what an earlier replica observed for the same key (first writer wins).
+func (r *replica) record(tab map[string]*entry, key string, vals map[string]string, si int, action, what string) {
+	r.rep.Checks++
+	e, ok := tab[key]
+	if !ok {
+		tab[key] = &entry{vals: vals, who: r.who}
+		return
+	}
+	r.rep.Count("relational_comparisons")
+	var ks []string
+	for k := range vals {
+		ks = append(ks, k)
+	}
+	for k := range e.vals {
+		if _, ok := vals[k]; !ok {
+			ks = append(ks, k)
 		}
-		b := evmutil.MakeBlock(h, txs)
-		res, err, p, st := n.Execute(b)
-		fmt.Println("exec", len(res.ValidTxs), len(res.InvalidTxs), err, p, st)
-		cr, err, p, st := n.Commit(b)
-		fmt.Printf("commit %x %x %v %v\n", cr.AppHash, cr.ReceiptsHash, err, p)
-		nn, err := n.Nonce(evmutil.Addr(k))
-		fmt.Println("nonce", nn, err)
-		if h == 1 && len(os_args()) > 1 {
-			fmt.Println("restart", n.Restart())
+	}
+	sort.Strings(ks)
+	for _, k := range ks {
+		if vals[k] != e.vals[k] {
+			name := k
+			if i := strings.IndexByte(name, ':'); i > 0 {
+				name = name[:i]
+			}
+			r.fail(si, action, "property", true, "determinism:"+what+name,
+				fmt.Sprintf("two replicas that committed the same %d blocks disagree on %s.\n this replica: %s\n other replica: %s\n chain: %s", len(r.achain), k, r.who, e.who, r.describe()),
+				e.vals[k], vals[k])
+			return
 		}
 	}
 }
 
-func os_args() []string { return os.Args }
+func (r *replica) describe() string {
+	var bl []string
+	for _, b := range r.achain {
+		var ts []string
+		for _, t := range b {
+			ts = append(ts, t.String())
+		}
+		bl = append(bl, "["+strings.Join(ts, " ")+"]")
+	}
+	return strings.Join(bl, " ")
+}
+
+func (r *replica) execute(si int, atxs []evmutil.ATx, want *[2][]interface{}) bool {
+	action := fmt.Sprintf("Execute(h=%d)", len(r.chain)+1)
+	var txs [][]byte
+	for _, t := range atxs {
+		txs = append(txs, evmutil.Concretize(t, variantOf(t)))
+	}
+	blk := evmutil.MakeBlock(int64(len(r.chain)+1), txs)
+	evm.VerifSetValidateRoutines(r.routines)
+	var release chan struct{}
+	if r.gate {
+		release = make(chan struct{})
+		verifhook.GateFn = func(site string) {
+			if site == "evm.tryValidate.failed" {
+				select {
+				case <-release:
+				case <-time.After(40 * time.Millisecond):
+				}
+			}
+		}
+	}
+	res, err, pnc, stack := r.node.Execute(blk)
+	if r.gate {
+		close(release)
+		verifhook.GateFn = nil
+	}
+	r.rep.Checks++
+	if pnc != nil || err != nil {
+		cls := "block"
+		if len(atxs) == 1 {
+			cls = atxs[0].C
+		}
+		if len(stack) > 1500 {
+			stack = stack[:1500]
+		}
+		r.fail(si, action, "panic", true, "panic:"+cls, fmt.Sprintf("OnExecute failed on %v: %v %v\n%s", names(atxs), pnc, err, stack), nil, nil)
+		r.aborted = true
+		return false
+	}
+	cls, ok := evmutil.Classify(txs, res, nil)
+	if !ok {
+		r.fail(si, action, "property", true, "Total:not-a-partition", "ValidTxs/InvalidTxs do not partition the block", len(txs), len(res.ValidTxs)+len(res.InvalidTxs))
+		r.aborted = true
+		return false
+	}
+	var gv, gi []evmutil.ATx
+	for i, c := range cls {
+		if c == "valid" {
+			gv = append(gv, atxs[i])
+		} else {
+			gi = append(gi, atxs[i])
+		}
+	}
+	// relational: the partition is a function of chain and block
+	r.record(execs, r.key+"|"+chainKey("", txs), map[string]string{"ExecuteResult": strings.Join(cls, ",")}, si, action, "")
+	if want != nil {
+		r.rep.Checks++
+		if !mbt.Equal(mbt.Canon(names(gv)), mbt.Canon(wantNames(want[0]))) || !mbt.Equal(mbt.Canon(names(gi)), mbt.Canon(wantNames(want[1]))) {
+			r.fail(si, action, "mismatch", false, "result:Execute", "ExecuteResult differs from the specification",
+				[]interface{}{wantNames(want[0]), wantNames(want[1])}, []interface{}{names(gv), names(gi)})
+		}
+	}
+	r.pending, r.ptxs, r.patxs = blk, txs, atxs
+	return true
+}
+
+func wantNames(v []interface{}) []interface{} {
+	o := make([]interface{}, len(v))
+	for i, x := range v {
+		o[i] = evmutil.ParseATx(x).String()
+	}
+	return o
+}
+
+func (r *replica) commit(si int) bool {
+	action := fmt.Sprintf("Commit(h=%d)", len(r.chain)+1)
+	cr, err, pnc, stack := r.node.Commit(r.pending)
+	r.rep.Checks++
+	if pnc != nil || err != nil {
+		r.fail(si, action, "panic", true, "panic:Commit", fmt.Sprintf("OnCommit failed: %v %v\n%s", pnc, err, stack), nil, nil)
+		r.aborted = true
+		return false
+	}
+	r.chain = append(r.chain, r.ptxs)
+	r.achain = append(r.achain, r.patxs)
+	r.key = chainKey(r.key, r.ptxs)
+	r.pending = nil
+	r.record(commits, r.key, map[string]string{"AppHash": hex.EncodeToString(cr.AppHash), "ReceiptsHash": hex.EncodeToString(cr.ReceiptsHash)}, si, action, "")
+	// Info() must report what was committed
+	info := r.node.App.Info()
+	r.rep.Checks++
+	if info.LastBlockHeight != int64(len(r.chain)) || !bytes.Equal(info.LastBlockAppHash, cr.AppHash) {
+		r.fail(si, action, "property", true, "Info-after-commit", "Info() does not report the committed height/AppHash",
+			[]interface{}{len(r.chain), hex.EncodeToString(cr.AppHash)}, []interface{}{info.LastBlockHeight, hex.EncodeToString(info.LastBlockAppHash)})
+	}
+	return true
+}
+
+func resStr(res gtypes.Result) string {
+	return fmt.Sprintf("%d/%s", res.Code, hex.EncodeToString(res.Data))
+}
+
+// stateQueries asks everything a client can ask about committed data.
+func (r *replica) stateQueries(si int) (map[string]string, bool) {
+	out := map[string]string{}
+	q := func(name string, kind byte, load []byte) bool {
+		res, p, st := r.node.Query(kind, load)
+		if p != nil {
+			if len(st) > 1200 {
+				st = st[:1200]
+			}
+			r.fail(si, "Query", "panic", true, "query-panic:"+strings.SplitN(name, ":", 2)[0], fmt.Sprintf("Query %s panicked: %v\n%s", name, p, st), nil, nil)
+			return false
+		}
+		out[name] = resStr(res)
+		return true
+	}
+	for _, a := range r.accts {
+		addr := evmutil.Addr(evmutil.Key(a))
+		if !q(fmt.Sprintf("nonce:%d", a), rtypes.QueryType_Nonce, addr.Bytes()) {
+			return nil, false
+		}
+		for n := 0; n < 4; n++ {
+			c := ecrypto.CreateAddress(addr, uint64(n))
+			ex := evmutil.SignedTx(evmutil.Key(1), 0, &c, 0, 0, 0, ecrypto.Keccak256(evmutil.CounterInit[11:]))
+			if !q(fmt.Sprintf("existence:%d/%d", a, n), rtypes.QueryType_Existence, ex) {
+				return nil, false
+			}
+		}
+	}
+	for _, k := range r.keys {
+		if !q("key:"+k, rtypes.QueryType_Key, []byte(k)) {
+			return nil, false
+		}
+		load := make([]byte, 8)
+		binary.BigEndian.PutUint32(load[0:], 1)
+		binary.BigEndian.PutUint32(load[4:], 20)
+		if !q("history:"+k, rtypes.QueryType_Key_Update_History, append(load, []byte(k)...)) {
+			return nil, false
+		}
+	}
+	for h, b := range r.chain {
+		for i, raw := range b {
+			if !q(fmt.Sprintf("receipt:%d.%d", h+1, i), rtypes.QueryType_Receipt, evmutil.TxHash(raw)) {
+				return nil, false
+			}
+		}
+	}
+	return out, true
+}
+
+func (r *replica) compareModelState(si int, action string, post map[string]interface{}) {
+	pS, _ := post["pS"].(map[string]interface{})
+	if pS == nil {
+		return
+	}
+	want := map[string]interface{}{"nonce": pS["nonce"], "height": post["pH"], "kv": post["pKV"]}
+	got := map[string]interface{}{}
+	var gn []interface{}
+	for _, a := range r.accts {
+		n, err := r.node.Nonce(evmutil.Addr(evmutil.Key(a)))
+		if err != nil {
+			r.fail(si, action, "error", true, "query-nonce", err.Error(), nil, nil)
+			return
+		}
+		gn = append(gn, int64(n))
+	}
+	got["nonce"] = gn
+	got["height"] = r.node.App.Info().LastBlockHeight
+	gkv := map[string]interface{}{}
+	for _, k := range r.keys {
+		found, v, err := r.node.KVGet([]byte(k))
+		if err != nil {
+			r.fail(si, action, "error", true, "query-key", err.Error(), nil, nil)
+			return
+		}
+		if found {
+			gkv[k] = strings.TrimRight(string(v), evmutil.BigPad)
+		} else {
+			gkv[k] = "none"
+		}
+	}
+	got["kv"] = gkv
+	var wc, gc []string
+	for _, c := range pS["created"].([]interface{}) {
+		p := c.([]interface{})
+		wc = append(wc, fmt.Sprintf("%d/%d", mbt.Int(p[0]), mbt.Int(p[1])))
+	}
+	for _, a := range r.accts {
+		for n := 0; n < 4; n++ {
+			has, err := r.node.HasCounterCode(ecrypto.CreateAddress(evmutil.Addr(evmutil.Key(a)), uint64(n)))
+			if err != nil {
+				r.fail(si, action, "error", true, "query-existence", err.Error(), nil, nil)
+				return
+			}
+			if has {
+				gc = append(gc, fmt.Sprintf("%d/%d", a, n))
+			}
+		}
+	}
+	want["created"], got["created"] = mbt.SortedStrings(wc), mbt.SortedStrings(gc)
+	r.rep.Checks++
+	if ks := mbt.DiffKeys(mbt.Norm(want).(map[string]interface{}), mbt.Canon(got).(map[string]interface{})); len(ks) > 0 {
+		r.fail(si, action, "mismatch", false, "state:"+ks[0], fmt.Sprintf("committed state differs from the specification on %v", ks), want, got)
+		r.aborted = true
+	}
+}
+
+func (r *replica) compareVolatile(si int, action string, wrc, wkv, whist int) {
+	grc, gkv, ghist := r.node.App.VerifVolatile()
+	r.rep.Checks++
+	if grc != wrc || gkv != wkv || (whist >= 0 && ghist != whist) {
+		r.fail(si, action, "mismatch", false, "internal:accumulators", "lengths of app.receipts/app.kvs/app.keyValueHistories differ from the specification",
+			[]int{wrc, wkv, whist}, []int{grc, gkv, ghist})
+	}
+}
+
+func resOf(post map[string]interface{}) map[string]interface{} {
+	if post == nil {
+		return nil
+	}
+	m, _ := post["res"].(map[string]interface{})
+	return m
+}
+
+func parseBlock(v interface{}) []evmutil.ATx {
+	var out []evmutil.ATx
+	for _, x := range v.([]interface{}) {
+		out = append(out, evmutil.ParseATx(x))
+	}
+	return out
+}
+
+func seqLen(v interface{}) int {
+	if l, ok := v.([]interface{}); ok {
+		return len(l)
+	}
+	return 0
+}
+
+// reference runs the chain on a fresh replica; every commit and the final queries go through the tables.
+func reference(rep *mbt.Report, ti int, tid string, achain [][]evmutil.ATx, accts []int, keys []string, routines int, restartAfter int, who string) {
+	node, err := evmutil.NewNode(10)
+	if err != nil {
+		rep.Fail(mbt.Failure{Trace: ti, TraceID: tid, Kind: "error", Key: "reference-node", Detail: err.Error()})
+		return
+	}
+	r := &replica{rep: rep, ti: ti, tid: tid, node: node, who: who, routines: routines, accts: accts, keys: keys}
+	defer func() { r.node.Close() }()
+	for h, b := range achain {
+		if !r.execute(-1, b, nil) || !r.commit(-1) {
+			return
+		}
+		if restartAfter == h+1 {
+			if err := r.node.Restart(); err != nil {
+				r.fail(-1, "Restart", "error", true, "restart-failed", err.Error(), nil, nil)
+				return
+			}
+		}
+	}
+	if qs, ok := r.stateQueries(-1); ok {
+		r.record(queries, r.key, qs, -1, "Query(state)", "Query:")
+	}
+	rep.Count("reference_replicas")
+}
+
+func main() {
+	crypto.NodeInit(crypto.CryptoTypeZhongAn)
+	if len(os.Args) < 2 {
+		fmt.Fprintln(os.Stderr, "usage: evmapp traces.json")
+		os.Exit(2)
+	}
+	traces, err := mbt.LoadTraces(os.Args[1])
+	if err != nil {
+		fmt.Fprintln(os.Stderr, "load:", err)
+		os.Exit(2)
+	}
+	debug.SetGCPercent(400)
+	rep := mbt.NewReport()
+	routineChoices := []int{1, 2, 4, 8, 16, 3}
+	histories := map[string]bool{}
+	for ti, tr := range traces {
+		rep.Traces++
+		node, err := evmutil.NewNode(10)
+		if err != nil {
+			fmt.Fprintln(os.Stderr, "node:", err)
+			os.Exit(2)
+		}
+		r := &replica{rep: rep, ti: ti, tid: tr.ID, node: node}
+		for _, a := range tr.Cfg["accts"].([]interface{}) {
+			r.accts = append(r.accts, mbt.Int(a))
+		}
+		for _, k := range tr.Cfg["keys"].([]interface{}) {
+			r.keys = append(r.keys, mbt.Str(k))
+		}
+		r.gate, _ = tr.Cfg["gate"].(bool)
+		hh := fnv.New32a()
+		hh.Write([]byte(tr.ID))
+		rsel := int(hh.Sum32() % 997)
+		r.routines = routineChoices[rsel%len(routineChoices)]
+		if v, ok := tr.Cfg["routines"]; ok {
+			r.routines = mbt.Int(v)
+		}
+		model := tr.Cfg["mode"] != "oracle"
+		var restartsAt []string
+		r.who = fmt.Sprintf("primary of %s (verifier goroutines %d, gate %v)", tr.ID, r.routines, r.gate)
+		for si, st := range tr.Steps {
+			if r.aborted {
+				break
+			}
+			rep.Steps++
+			switch st.A {
+			case "Execute":
+				var wp *[2][]interface{}
+				if res := resOf(st.Post); model && res != nil {
+					wv, _ := res["valid"].([]interface{})
+					wi, _ := res["invalid"].([]interface{})
+					wp = &[2][]interface{}{wv, wi}
+				}
+				if r.execute(si, parseBlock(st.Args[0]), wp) && model && st.Post != nil {
+					r.compareVolatile(si, "Execute", seqLen(st.Post["vRc"]), seqLen(st.Post["vKvs"]), seqLen(st.Post["vHist"]))
+				}
+			case "Commit":
+				if r.pending == nil {
+					r.fail(si, "Commit", "error", false, "", "Commit without Execute in trace", nil, nil)
+					r.aborted = true
+					break
+				}
+				if res := resOf(st.Post); model && res != nil {
+					if rh, ok := res["rh"].(map[string]interface{}); ok {
+						r.compareVolatile(si, "Commit(before)", seqLen(rh["rc"]), seqLen(rh["kvs"]), -1)
+					}
+				}
+				if r.commit(si) && model && st.Post != nil {
+					r.compareVolatile(si, "Commit", seqLen(st.Post["vRc"]), seqLen(st.Post["vKvs"]), seqLen(st.Post["vHist"]))
+					r.compareModelState(si, "Commit", st.Post)
+				}
+			case "Restart":
+				if err := r.node.Restart(); err != nil {
+					r.fail(si, "Restart", "error", true, "restart-failed", "Stop/NewEVMApp/Start failed: "+err.Error(), nil, nil)
+					r.aborted = true
+					break
+				}
+				r.pending = nil
+				restartsAt = append(restartsAt, fmt.Sprintf("%d", len(r.chain)))
+				r.routines = routineChoices[(rsel+len(restartsAt))%len(routineChoices)]
+				if v, ok := tr.Cfg["routines"]; ok {
+					r.routines = mbt.Int(v)
+				}
+				r.who = fmt.Sprintf("primary of %s (restarts after heights %v, verifier goroutines now %d)", tr.ID, restartsAt, r.routines)
+				if model && st.Post != nil {
+					r.compareVolatile(si, "Restart", 0, 0, 0)
+					r.compareModelState(si, "Restart", st.Post)
+				}
+			case "Query":
+				kind := mbt.Str(st.Args[0])
+				if kind == "state" {
+					if qs, ok := r.stateQueries(si); ok {
+						r.record(queries, r.key, qs, si, "Query(state)", "Query:")
+						if model && st.Post != nil {
+							r.compareModelState(si, "Query(state)", st.Post)
+						}
+					}
+				} else {
+					ret, err := r.node.Counter()
+					rep.Checks++
+					if err != nil {
+						e := err.Error()
+						if len(e) > 1500 {
+							e = e[:1500]
+						}
+						r.fail(si, "Query(call)", "panic", true, "query-panic:contract-call",
+							fmt.Sprintf("contract-call query failed on a replica (%s) although the same query is answered by a replica with the same chain that has executed a block since it started: %s", r.who, e), nil, nil)
+						break
+					}
+					r.record(calls, r.key, map[string]string{"contract-call": hex.EncodeToString(ret)}, si, "Query(call)", "Query:")
+					if res := resOf(st.Post); model && res != nil {
+						if ans, ok := res["ans"].(map[string]interface{}); ok && ans["cnt"] != nil {
+							want := int64(mbt.Int(ans["cnt"]))
+							got := int64(0)
+							if len(ret) == 32 {
+								got = int64(binary.BigEndian.Uint64(ret[24:]))
+							}
+							if want != got {
+								r.fail(si, "Query(call)", "mismatch", false, "state:cnt", "contract counter differs from the specification", want, got)
+							}
+						}
+					}
+				}
+			default:
+				r.fail(si, st.A, "error", false, "", "unknown action", nil, nil)
+			}
+		}
+		histories[fmt.Sprintf("%s|%v|%d", r.key, restartsAt, r.routines)] = true
+		// final state queries of the primary
+		if !r.aborted && len(r.chain) > 0 {
+			if qs, ok := r.stateQueries(len(tr.Steps)); ok {
+				r.record(queries, r.key, qs, len(tr.Steps), "Query(state,final)", "Query:")
+			}
+		}
+		achain, accts, keys, key := r.achain, r.accts, r.keys, r.key
+		r.node.Close()
+		// reference replicas, once per distinct final chain
+		if !r.aborted && len(achain) > 0 && !refDone[key] {
+			refDone[key] = true
+			reference(rep, ti, tr.ID, achain, accts, keys, 1, 0, "continuous reference replica (1 verifier goroutine, no restart)")
+			ra := 1 + (rsel % len(achain))
+			reference(rep, ti, tr.ID, achain, accts, keys, 16, ra, fmt.Sprintf("catch-up replica (fresh application, 16 verifier goroutines, restart after height %d)", ra))
+		}
+	}
+	rep.Extra["distinct_chains"] = len(refDone)
+	rep.Extra["distinct_chain_prefixes"] = len(commits)
+	rep.Extra["distinct_histories"] = len(histories)
+	_ = common.Address{}
+	rep.Emit()
+}
